@@ -616,6 +616,11 @@ class Executor:
         vals = [(fname, self.operand(st, fid, body, op, None)) for fname, op in fields]
         m = re.match(r"^(.*)::([A-Za-z_][A-Za-z0-9_]*)$", head)
         variant = None
+        if not m and re.fullmatch(r"[A-Z][A-Za-z0-9_]*", head) and dest_ty:
+            # unit variant printed without its path, e.g. `_7 = ParseError;`
+            vi0 = self.ctx.variant_index_any(head, dest_ty)
+            if vi0 is not None:
+                m = re.match(r"^(.*)::([A-Za-z_][A-Za-z0-9_]*)$", dest_ty.strip() + "::" + head)
         if head not in ("()", "[]") and not head.startswith(("{closure", "{coroutine", "{async")) and m:
             vi = self.ctx.variant_index(m.group(1), m.group(2))
             if vi is None:
